@@ -213,8 +213,9 @@ def mo_tasks(rng, thorough):
             for amb in amb_sets:
                 if amb is not None and occs is None:
                     continue
-                flags = [(True, True, True), (False, False, False), (True, False, True), (False, True, False)]
-                for f in (flags if (thorough or rng.random() < 0.3) else flags[:2]):
+                # every presence pattern of the optional arrays (energies, irreps, coefficients) is drawn independently
+                flags = list(itertools.product([True, False], repeat=3))
+                for f in (flags if thorough else rng.sample(flags, 3)):
                     tasks.append(("restricted", n, occs, amb, *f))
         for occs in ([None] + [[rng.choice([0.0, 0.5, 1.0]) for _ in range(2 * n)] for _ in range(4)]):
             tasks.append(("unrestricted", n, occs, None, True, False, True))
